@@ -40,8 +40,10 @@ OPS = collections.OrderedDict([
     ('collapse', ('collapse_unary_chains', {})),
     ('uncollapse', ('uncollapse_unary_chains', {})),
 ])
+# (collapsing merges unary chains: every surviving node keeps its place among its sisters, so head marks set
+# before it still count - D13)
 RESTRUCTURING = {'root_attach', 'punctuation_verylow', 'punctuation_symetrify', 'punctuation_symetrify_relc',
-                 'punctuation_root', 'collapse', 'uncollapse', 'add_topnode'}
+                 'punctuation_root', 'uncollapse', 'add_topnode'}
 
 
 def enabled(op, flags, bare_token):
